@@ -370,6 +370,18 @@ def lin(e, atom_key=None):
             return lin(args[0], atom_key) + lin(args[1], atom_key)
         if name == "sub" and len(args) == 2 and "ops::Sub" in e[1]:
             return lin(args[0], atom_key) - lin(args[1], atom_key)
+        if (name == "mul" and len(args) == 2 and "ops::Mul" in e[1]) or (name in ("saturating_mul", "wrapping_mul", "checked_mul") and len(args) == 2):
+            a, b = lin(args[0], atom_key), lin(args[1], atom_key)
+            if a.is_const():
+                return b.scale(a.const)
+            if b.is_const():
+                return a.scale(b.const)
+        if name == "div" and len(args) == 2 and "ops::Div" in e[1]:
+            b = lin(args[1], atom_key)
+            if b.is_const() and b.const != 0:
+                r_ = lin(args[0], atom_key).scale(Fraction(1) / b.const)
+                r_.flags.add("trunc")
+                return r_
     if e[0] == "field" and e[2] in ("0",) and e[1][0] == "bin" and e[1][1].endswith("WithOverflow"):
         return lin(e[1], atom_key)
     return Lin({novers_keep(e): Fraction(1)})
@@ -649,3 +661,82 @@ def inline(prog, e, depth=3, only_crates=("melstf", "melvm", "tip911_stakeset"))
 
 def local_calls(prog, e):
     return [x[1] for x in walk(e) if x[0] == "call" and x[1] in prog.by_nname]
+
+
+# ------------------------------------------------------------------ predicates as conjunctions of atoms
+def canon_cmp(op, L, R):
+    """canonical (op, sigL, sigR): only Lt/Le/Eq/Ne; Eq/Ne operands sorted"""
+    a, b = sig(L), sig(R)
+    if op in ("Gt", "Ge"):
+        op, a, b = SWAP[op], b, a
+    if op in ("Eq", "Ne") and b < a:
+        a, b = b, a
+    return "%s(%s, %s)" % (op, a, b)
+
+
+def cmp_atoms(body):
+    """every comparison expression evaluated in `body` (statements and calls): list of (expr, canon, bb)"""
+    out = []
+    seen = set()
+    for bi, si, s in body.iter_stmts():
+        if s["k"] == "assign" and s["rv"]["k"] == "bin" and not s["exp"]:
+            e = body.rec_rvalue(s["rv"], bi, si)
+            cm = as_cmp(e)
+            if cm and e not in seen:
+                seen.add(e)
+                out.append((e, canon_cmp(*cm), bi))
+    for bi, t in body.calls():
+        if t["exp"]:
+            continue
+        e = body.rec_call(t, bi)
+        cm = as_cmp(e)
+        if cm and e not in seen:
+            seen.add(e)
+            out.append((e, canon_cmp(*cm), bi))
+    return out
+
+
+def ret_value_under(body, table):
+    """abstract value of the return place with the atoms in `table` (expr -> 0/1) forced"""
+    f = Forcing(body, lambda x: table.get(x))
+    return f.vals.get(0, ("bot",)), f
+
+
+def check_conjunction(r, prefix, body, expected, where=None):
+    """`body` returns a bool that is exactly the conjunction of the expected atoms (canonical strings).
+    necessary: forcing one atom false makes the result false; sufficient: all true makes it true;
+    no other comparison atom is necessary."""
+    atoms = cmp_atoms(body)
+    by_canon = {}
+    for e, c, bi in atoms:
+        by_canon.setdefault(c, []).append(e)
+    where = where or "%s:%s" % (body.file, body.line)
+    ok_all = True
+    for c in expected:
+        if c not in by_canon:
+            r.violation("%s/missing:%s" % (prefix, c), "the condition %s is not evaluated (found: %s)" % (c, sorted(by_canon)), where)
+            ok_all = False
+            continue
+        v, _ = ret_value_under(body, {e: 0 for e in by_canon[c]})
+        if v == C(0):
+            r.ok("%s/necessary:%s" % (prefix, c), "%s false ⇒ result false" % c, where)
+        else:
+            r.violation("%s/not-necessary:%s" % (prefix, c), "with %s false the result can still be true" % c, where)
+            ok_all = False
+    for c in by_canon:
+        if c in expected:
+            continue
+        v, _ = ret_value_under(body, {e: 0 for e in by_canon[c]})
+        if v == C(0):
+            r.violation("%s/extra:%s" % (prefix, c), "an additional condition %s is required (expected exactly %s)" % (c, list(expected)), where)
+            ok_all = False
+    tbl = {}
+    for c in expected:
+        for e in by_canon.get(c, []):
+            tbl[e] = 1
+    v, _ = ret_value_under(body, tbl)
+    if v == C(1):
+        r.ok("%s/sufficient" % prefix, "all of %s true ⇒ result true" % list(expected), where)
+    elif ok_all:
+        r.violation("%s/not-sufficient" % prefix, "with all of %s true the result is not forced true (value %s): something else can veto" % (list(expected), v), where)
+    return ok_all
